@@ -12,33 +12,36 @@ impl Timer {
     pub closed spec fn reg_counter(&self) -> Option<int> { match self.registration { Some(r) => Some(r.counter as int), None => None } }
     /// the current deadline (None: overflowed)
     pub closed spec fn dl(&self) -> Option<Instant> { self.deadline }
+    /// the timer takes part in a loop: registered and not disabled since (an armed timer does; one whose deadline has
+    /// overflowed takes part without an arming)
+    pub closed spec fn takes_part(&self) -> bool { self.registered }
 }
 //@ endregion
 
 //@ open src/sources/timer.rs / impl Timer
 //@ item src/sources/timer.rs / impl Timer / fn immediate props=C05 ret=r
 //@ spec
-        ensures r.dl() is Some, r.reg_token() is None,
+        ensures r.dl() is Some, r.reg_token() is None, !r.takes_part(),
 //@ enditem
 //@ item src/sources/timer.rs / impl Timer / fn from_duration props=C05 ret=r
 //@ spec
-        ensures r.reg_token() is None,
+        ensures r.reg_token() is None, !r.takes_part(),
 //@ enditem
 //@ item src/sources/timer.rs / impl Timer / fn from_deadline props=C05 ret=r
 //@ spec
-        ensures r.dl() == Some(deadline), r.reg_token() is None,
+        ensures r.dl() == Some(deadline), r.reg_token() is None, !r.takes_part(),
 //@ enditem
 //@ item src/sources/timer.rs / impl Timer / fn from_deadline_inner props=C05 ret=r
 //@ spec
-        ensures r.dl() == deadline, r.reg_token() is None,
+        ensures r.dl() == deadline, r.reg_token() is None, !r.takes_part(),
 //@ enditem
 //@ item src/sources/timer.rs / impl Timer / fn set_deadline props=C05
 //@ spec
-        ensures final(self).dl() == Some(deadline), final(self).reg_token() == old(self).reg_token(),
+        ensures final(self).dl() == Some(deadline), final(self).reg_token() == old(self).reg_token(), final(self).takes_part() == old(self).takes_part(),
 //@ enditem
 //@ item src/sources/timer.rs / impl Timer / fn set_duration props=C05
 //@ spec
-        ensures final(self).reg_token() == old(self).reg_token(),
+        ensures final(self).reg_token() == old(self).reg_token(), final(self).takes_part() == old(self).takes_part(),
 //@ enditem
 //@ item src/sources/timer.rs / impl Timer / fn current_deadline props=C05 ret=r
 //@ spec
@@ -56,24 +59,31 @@ impl Timer {
 //@ item src/sources/timer.rs / impl EventSource for Timer / type Error props=C05
 //@ enditem
 //@ region timer_protocol props=C05,C01,C07
-    open spec fn wf(&self) -> bool { true }
+    /// an armed timer takes part in its loop
+    open spec fn wf(&self) -> bool { self.reg_token() is Some ==> self.takes_part() }
     open spec fn registered(&self) -> bool { self.reg_token() is Some }
     /// arming an armed timer would leave the old heap entry behind
     open spec fn register_req(&self) -> bool { self.reg_token() is None }
     open spec fn register_ens(o: &Self, n: &Self, ok: bool) -> bool {
         &&& ok && n.dl() == o.dl() && (n.reg_token() is Some <==> o.dl() is Some)
+        &&& n.takes_part()
         // C05 (must-call): an armed timer HAS put (its deadline, its token) into the wheel, under the counter it remembers
         &&& n.reg_token() is Some ==> (n.reg_counter() matches Some(c) && w_wheel_inserted(c, o.dl()->Some_0, n.reg_token()->Some_0))
     }
-    open spec fn reregister_req(&self) -> bool { true }
+    /// (taken from the property: `update()` may be called on a disabled source)
+    open spec fn reregister_req(&self) -> bool { self.wf() }
     open spec fn reregister_ens(o: &Self, n: &Self, ok: bool) -> bool {
-        &&& ok && n.dl() == o.dl() && (n.reg_token() is Some <==> o.dl() is Some)
+        &&& ok && n.dl() == o.dl() && n.takes_part() == o.takes_part()
+        // C07 (from the property: "not invoked again until enable() succeeds"): a timer that does not take part in the loop
+        // -- it has been disabled -- is NOT armed by a re-registration (defect F17: update() armed it)
+        &&& !o.takes_part() ==> n.reg_token() is None
+        &&& o.takes_part() ==> (n.reg_token() is Some <==> o.dl() is Some)
         &&& o.reg_counter() matches Some(c) ==> w_wheel_cancelled(c)
         &&& n.reg_token() is Some ==> (n.reg_counter() matches Some(c) && w_wheel_inserted(c, o.dl()->Some_0, n.reg_token()->Some_0))
     }
     open spec fn unregister_req(&self) -> bool { true }
     open spec fn unregister_ens(o: &Self, n: &Self, ok: bool) -> bool {
-        &&& ok && n.dl() == o.dl() && n.reg_token() is None
+        &&& ok && n.dl() == o.dl() && n.reg_token() is None && !n.takes_part()
         // C05/C07 (must-call): the arming it had HAS been cancelled in the wheel (a disabled / removed / re-armed timer
         // leaves no entry behind that could still fire)
         &&& o.reg_counter() matches Some(c) ==> w_wheel_cancelled(c)
@@ -94,7 +104,7 @@ impl Timer {
     open spec fn process_ens(o: &Self, n: &Self, readiness: Readiness, token: Token, r: Result<PostAction, std::io::Error>) -> bool {
         &&& r is Ok
         &&& (r->Ok_0 is Continue || r->Ok_0 is Remove)
-        &&& n.reg_token() == o.reg_token() && n.reg_counter() == o.reg_counter()
+        &&& n.reg_token() == o.reg_token() && n.reg_counter() == o.reg_counter() && n.takes_part() == o.takes_part()
         // an event that is not for the current arming (stale token, disabled, overflowed) is ignored
         &&& (o.reg_token() != Some(token) || o.dl() is None) ==> (r->Ok_0 is Continue && n.dl() == o.dl())
         // rescheduled timers keep a deadline
@@ -137,7 +147,7 @@ impl Timer {
             // the arming uses the first token of the factory
             final(self).reg_token() matches Some(t) ==> t.tok() == old(token_factory).next(),
 //@ enditem
-//@ item src/sources/timer.rs / impl EventSource for Timer / fn reregister props=C05,C01,C12
+//@ item src/sources/timer.rs / impl EventSource for Timer / fn reregister props=C05,C01,C12,C07
 //@ spec
         ensures
             final(self).reg_token() matches Some(t) ==> t.tok() == old(token_factory).next(),
